@@ -755,8 +755,9 @@ fn d_qpack(input: &[u8]) -> Out {
         )),
         (Err(e), Ok(sec)) => {
             let o = Out::new(format!("qpack:err:{e:?}"));
-            // completeness only for sane magnitudes and UTF-8 content
-            if sec.max_int < (1u128 << 31) && ref_section_map(&sec).is_some() {
+            // completeness only for sane magnitudes, sane integer octet lengths (RFC 7541 §5.1
+            // allows a limit on both) and UTF-8 content
+            if sec.max_int < (1u128 << 31) && sec.max_int_octets <= 6 && ref_section_map(&sec).is_some() {
                 o.bad(format!("decoder rejected ({e:?}) a section the reference decodes ({} fields)", sec.fields.len()))
             } else {
                 o
